@@ -205,7 +205,7 @@ func genStrategy(r *rand.Rand, p Profile) (v1.ExtendedDaemonSetSpecStrategy, str
 		c := &v1.ExtendedDaemonSetSpecStrategyCanary{}
 		reps := []intstr.IntOrString{intstr.FromInt(1), intstr.FromInt(2), intstr.FromString("50%")}
 		if p.Big {
-			reps = []intstr.IntOrString{intstr.FromInt(7), intstr.FromString("10%"), intstr.FromString("15%"), intstr.FromString("33%")}
+			reps = []intstr.IntOrString{intstr.FromInt(7), intstr.FromInt(12), intstr.FromString("10%"), intstr.FromString("33%"), intstr.FromString("40%")}
 		}
 		rep := reps[r.Intn(len(reps))]
 		c.Replicas = &rep
